@@ -380,6 +380,7 @@ func init() {
 		sb.WriteString("\n")
 
 		seen := map[string]bool{}
+		skels := map[string][]string{}
 		for _, fn := range stratFns {
 			if seen[fn.def] {
 				return Result{}, fmt.Errorf("duplicate definition %s", fn.def)
@@ -418,7 +419,32 @@ func init() {
 			}
 			sb.WriteString("]\n\n")
 			summary[fn.def] = len(sk)
+			skels[fn.def] = sk
 		}
+		// derived switches read by the correspondence driver (findings S1 / S2): does the recursive resolver
+		// restrict the edges it follows to the self-referencing userset / to parents of the object's own type?
+		has := func(def, needle string) bool {
+			for _, l := range skels[def] {
+				if strings.Contains(l, needle) {
+					return true
+				}
+			}
+			return false
+		}
+		selfOnly := has("recursiveUsersetSkel", "NewFilteredTupleKeyIterator(rightIter")
+		sameType := has("recursiveTTUSkel", "sameTypeParents(") && has("buildRecursiveMapperSkel", "sameTypeParents(")
+		bs := func(b bool) string {
+			if b {
+				return "true"
+			}
+			return "false"
+		}
+		sb.WriteString("/-- `recursiveUserset` filters the right-hand iterator down to the self-referencing userset (fix of S1) -/\n")
+		sb.WriteString("def recursiveFollowsOnlySelfUserset : Bool := " + bs(selfOnly) + "\n\n")
+		sb.WriteString("/-- `recursiveTTU` / `buildRecursiveMapper` keep only parents of the object's own type (fix of S2) -/\n")
+		sb.WriteString("def recursiveFollowsOnlySameTypeParents : Bool := " + bs(sameType) + "\n\n")
+		summary["recursiveFollowsOnlySelfUserset"] = selfOnly
+		summary["recursiveFollowsOnlySameTypeParents"] = sameType
 		sb.WriteString("end OpenFGAVerif.Gen.Strategies\n")
 		return Result{Lean: sb.String(), Summary: summary}, nil
 	})
